@@ -25,6 +25,11 @@ var verifDetermProgs = []verifDetermProg{
 	{"modules", "import { f, g } from m1;\nimport h from m2;\nfn k() -> int { return 4; }\nfn main() {\n  println(f(), g(), h(), k());\n}\n",
 		map[string]string{"m1": "let v = 10;\npub fn f() -> int { return v + 1; }\npub fn g() -> int { return v + 2; }\nfn k() -> int { return 0; }\n", "m2": "let v = 20;\npub fn h() -> int { return v + 3; }\nfn k() -> int { return 0; }\n"}},
 	{"locals", "fn a(p: int, q: int) -> int { let r = p + q; let s = r * 2; return s - p; }\nfn b(p: int) -> int { let t = a(p, 1); return t + a(2, p); }\nfn main() {\n  let l = [b(1), b(2), b(3)];\n  for x in l { println(x); }\n}\n", nil},
+	{"singletons-impl", "import templ FooFeature from templates;\nimport trigger minute from triggers;\n$Device = { b: int, name: str, on: bool };\n$Other = { c: float, d: int };\nimpl FooFeature with { light } for $Device {\n  fn dim(self: $Device, percent: int) -> bool { self.b = percent; true }\n}\nimpl FooFeature with { temperature } for $Other {\n  fn set_temp(self: $Other, celsius: float) { self.c = celsius; }\n}\nevent fn cb(elapsed: int) { println(elapsed); }\nfn main() {\n  println(dim(3), $Device, $Other);\n  set_temp(1.5);\n  trigger cb at minute(2);\n  println($Other.c, $Device.b);\n}\n", nil},
+	{"several-errors", "import nothere from m1;\nfn a(p: int, p: int) {}\nfn a() {}\nlet g = 1;\nlet g = 2;\ntype T = int;\ntype T = str;\nfn main() {\n  let x: str = 1;\n  let y: int = \"s\";\n  undefined1();\n  undefined2();\n  break;\n}\n",
+		map[string]string{"m1": "let v = 10;\npub fn f() -> int { return v; }\n"}},
+	{"module-chain", "import fa from a;\nimport fb from b;\nfn main() {\n  println(fa(), fb());\n}\n",
+		map[string]string{"a": "import inc from c;\npub fn fa() -> int { return inc(); }\n", "b": "import inc from c;\npub fn fb() -> int { return inc() * 10; }\npub fn fa() -> int { return 0; }\n", "c": "pub let cnt = 0;\npub fn inc() -> int { cnt += 1; return cnt; }\n"}},
 	{"list-of-objects", "fn main() {\n  let l = [new { k: 1, v: \"a\" }, new { k: 2, v: \"b\" }];\n  for o in l { println(o.k, o.v); }\n  println(l);\n}\n", nil},
 }
 
